@@ -278,6 +278,8 @@ VOCAB = {
     "RESP_REPLY": {"RespValue::Integer(ifresponse.allowed{1}else{0})", "RespValue::Integer(response.limit)", "RespValue::Integer(response.remaining)",
                    "RespValue::Integer(response.reset_after)", "RespValue::Integer(response.retry_after)"},
     "RESP_REQ": {"key", "max_burst", "count_per_period", "period", "quantity", "SystemTime::now()"},
+    "HTTP_METRICS": {"record_request_with_key(MetricsTransport::Http,response.allowed,&req.key)", "record_error(MetricsTransport::Http)"},
+    "GRPC_METRICS": {"record_request_with_key(MetricsTransport::Grpc,result.allowed,&req.key)", "record_error(MetricsTransport::Grpc)"},
 }
 
 def gather_glue():
@@ -320,6 +322,19 @@ def gather_glue():
     grpc = soft_read("throttlecrab-server/src/transport/grpc.rs").split("#[cfg(test)]")[0]
     table("GRPC_REQ", lambda: struct_literal(grpc, r"let\s+actor_request\s*=\s*ActorRequest\s*\{", "grpc.rs actor request"))
     table("GRPC_RESP", lambda: struct_literal(grpc, r"let\s+response\s*=\s*ThrottleResponse\s*\{", "grpc.rs response"))
+
+    def metric_calls(src, what):
+        """[(arm, call)] for the Ok / Err arms of the handler's match on the limiter's answer"""
+        calls = re.findall(r"\.metrics\s*\.\s*(record_request_with_key|record_request|record_error)\s*\(([^;]*?)\)\s*;", src, re.S)
+        if not calls:
+            raise TranslateError(f"{what}: no metrics call found")
+        out = []
+        for fn, args in calls:
+            a = re.sub(r"\s+", "", args).rstrip(",")
+            out.append(("err" if fn == "record_error" else "ok", f"{fn}({a})"))
+        return out
+    table("HTTP_METRICS", lambda: metric_calls(block_after(http, r"async\s+fn\s+handle_throttle\s*\([^{]*\{", "http.rs handle_throttle"), "http.rs"))
+    table("GRPC_METRICS", lambda: metric_calls(block_after(grpc, r"async\s+fn\s+throttle\s*\([^{]*\{", "grpc.rs throttle"), "grpc.rs"))
     rmod = soft_read("throttlecrab-server/src/transport/redis/mod.rs")
 
     def ht():
